@@ -494,3 +494,30 @@ def uid_of(node: B):
     leafnode = node.pos[names.index('uid')]
     return leafnode.value if isinstance(leafnode, Leaf) else None
   return None
+
+
+def kwargs_rename(root, rng, p=0.5, names=('extra_p', 'extra_q', 'extra_r')):
+  """Moves keyword arguments of **kwargs callables under **kwargs NAMES, in a shuffled order
+  (in place): their order is insertion order, not signature order, and differs between nodes
+  of the same callable. Returns the number of nodes changed."""
+  changed = 0
+  for n in walk(root):
+    if not (isinstance(n, B) and n.btype != 'TaggedValue' and rng.random() < p):
+      continue
+    try:
+      ps = inspect.signature(n.fn).parameters.values()
+    except (TypeError, ValueError):
+      continue
+    if not any(q.kind == q.VAR_KEYWORD for q in ps):
+      continue
+    movable = [k for k in n.kw if k != 'uid' and k not in n.tags and not k.startswith('extra_')]
+    if len(movable) < 2:
+      continue
+    picked = rng.sample(movable, min(len(movable), rng.choice([2, 3])))
+    new_names = list(names)
+    rng.shuffle(new_names)
+    moved = {new_names[i]: n.kw[k] for i, k in enumerate(picked)}
+    n.kw = {k: v for k, v in n.kw.items() if k not in picked}
+    n.kw.update(moved)
+    changed += 1
+  return changed
